@@ -187,6 +187,8 @@ class ConnectionModel:
                 return NotImplemented        # a started coroutine is being stepped: its calls are interpreted, not recorded
             if isinstance(callee, BoundMethod) and callee.fi.name == "consume":
                 return Obj(None, {"kind": "consume", "handler": callee.obj, "args": list(args)}, name="coroutine<consume>")
+            if isinstance(callee, BoundMethod) and spa_box and callee.obj is spa_box[0] and callee.fi.is_async and getattr(it_, "_awaited", None) is node:
+                return NotImplemented        # `await self._step()`: a step of the running coroutine, interpreted in place
             if isinstance(callee, BoundMethod) and spa_box and callee.obj is spa_box[0] and callee.fi.is_async and callee.fi.name not in ("_connect", "disconnect", "connect"):
                 return Obj(None, {"kind": "coroutine", "method": callee.fi.name, "args": list(args)}, name=f"coroutine<{callee.fi.name}>")
             return NotImplemented
